@@ -129,10 +129,10 @@ def explicit_progress_assert (facts, loop_test, path=None):
         if upd: return True, "asserted %s != %s, then %s = %s" % (norm(a), b.id, b.id, norm(a))
   return False, ''
 
-def check_loop (repo, func, g, head, after, loop_stmt, env=None, nonempty_len=None, limit=300, cursors=None):
+def check_loop (repo, func, g, head, after, loop_stmt, env=None, nonempty_len=None, limit=300, cursors=None, exc=False):
   """returns list of (ok, reason, path_lines) one per head->head path (ok None = undecided)"""
   env = env or q.Env()
-  paths = q.paths_under(repo, func.module, g, env, head, [head], func.cls, limit=limit)
+  paths = q.paths_under(repo, func.module, g, env, head, [head], func.cls, limit=limit, exc=exc)
   res = []
   test = loop_stmt.test if isinstance(loop_stmt, ast.While) else None
   if test is not None and isinstance(test, ast.Constant):
